@@ -30,7 +30,7 @@ fn meta() -> Meta {
     Meta {
         id: "C12",
         level: "model_checking",
-        rule: "for every multiset of 2 (all) or 3 (selected) operations from {set_new_spec(A), parse_new_spec(B), push_temp_spec(C), push_temp_spec(C)+pop_temp_spec, set_new_spec(D)}, every interleaving of the threads' scheduling points (thread start, acquisition of the spec write lock, global max-level update, thread end) is executed under the controlled scheduler; states = choice points visited, transitions = scheduling decisions taken; a schedule is non-trivial when it contains at least one preemption; plus WatcherE (the specfile watcher's path through a guarded hook) as sixth operation and a Probe thread reading log::max_level() at any moment (the additional writer's max_log_level() is a scheduling point): the gate is never below that writer's ceiling; every pair also with the spec lock left un-modelled (real blocking on the RwLock, detected from the kernel thread state); a LogQ thread logs an error record for a module every specification switches off - it is never written; plus an auxiliary free-running pass (sampling): 60000 / 1.5 M rounds of two simultaneous set_new_spec calls, the state judged after every round",
+        rule: "for every multiset of 2 (all) or 3 (selected) operations from {set_new_spec(A), parse_new_spec(B), push_temp_spec(C), push_temp_spec(C)+pop_temp_spec, set_new_spec(D)}, every interleaving of the threads' scheduling points (thread start, acquisition of the spec write lock, global max-level update, thread end) is executed under the controlled scheduler; states = choice points visited, transitions = scheduling decisions taken; a schedule is non-trivial when it contains at least one preemption; plus WatcherE (the specfile watcher's path through a guarded hook) as sixth operation and a Probe thread reading log::max_level() at any moment (the additional writer's max_log_level() is a scheduling point): the gate is never below that writer's ceiling; every pair also with the spec lock left un-modelled (real blocking on the RwLock, detected from the kernel thread state); a LogQ thread logs an error record for a module every specification switches off - it is never written; plus an auxiliary free-running pass (sampling): 60000 / 1.5 M rounds of two simultaneous set_new_spec calls, the state judged after every round; the final specification must be one that some interleaving of the operations' atomic steps produces (set/parse/watcher: install; push_temp_spec: save the active one, then install; pop_temp_spec: install what this handle saved)",
         assumptions: vec![
             "sequentially consistent interleaving at hook granularity (spec RwLock section and log::set_max_level are the only shared accesses of these operations)".into(),
             "the specfile watcher calls the same WritersHandle::set_new_spec and is covered as another thread".into(),
@@ -273,37 +273,57 @@ fn body(ops: Vec<Op>) -> Arc<dyn Fn(&Arc<Sched>) -> Obs + Send + Sync> {
     })
 }
 
+/// The specifications that can be the active one at the end: every interleaving of the
+/// operations' atomic steps is enumerated. set/parse/watcher = one step (install x);
+/// push_temp_spec = two steps (save what is active; install C) - it is not atomic in the code
+/// either, another thread's change may come in between; pop_temp_spec = one step (install what
+/// this handle saved; every handle clone has a stack of its own).
 fn candidates(ops: &[Op]) -> Vec<usize> {
-    let mut c = vec![];
-    for op in ops {
-        match op {
-            Op::SetA => c.push(0),
-            Op::ParseB => c.push(1),
-            Op::PushC => c.push(2),
-            Op::PushPopC => {
-                // the pop re-submits what was active at the push: the initial spec or any other
-                // thread's submission
-                c.push(INITIAL);
+    #[derive(Clone, Copy)]
+    enum Step {
+        Set(usize),
+        Save,
+        Restore,
+    }
+    let progs: Vec<Vec<Step>> = ops
+        .iter()
+        .map(|op| match op {
+            Op::SetA => vec![Step::Set(0)],
+            Op::ParseB => vec![Step::Set(1)],
+            Op::PushC => vec![Step::Save, Step::Set(2)],
+            Op::PushPopC => vec![Step::Save, Step::Set(2), Step::Restore],
+            Op::SetD => vec![Step::Set(3)],
+            Op::WatcherE => vec![Step::Set(5)],
+            Op::Probe | Op::LogQ => vec![],
+        })
+        .collect();
+    fn go(progs: &[Vec<Step>], pc: &mut Vec<usize>, saved: &mut Vec<usize>, cur: usize, out: &mut Vec<usize>) {
+        let mut any = false;
+        for t in 0..progs.len() {
+            if pc[t] < progs[t].len() {
+                any = true;
+                let step = progs[t][pc[t]];
+                pc[t] += 1;
+                let old_saved = saved[t];
+                let next = match step {
+                    Step::Set(x) => x,
+                    Step::Save => {
+                        saved[t] = cur;
+                        cur
+                    }
+                    Step::Restore => saved[t],
+                };
+                go(progs, pc, saved, next, out);
+                saved[t] = old_saved;
+                pc[t] -= 1;
             }
-            Op::SetD => c.push(3),
-            Op::WatcherE => c.push(5),
-            Op::Probe | Op::LogQ => {}
+        }
+        if !any {
+            out.push(cur);
         }
     }
-    if ops.contains(&Op::PushPopC) {
-        // whatever another thread had installed when the push happened may come back
-        for op in ops {
-            match op {
-                Op::SetA => c.push(0),
-                Op::ParseB => c.push(1),
-                Op::PushC => c.push(2),
-                Op::SetD => c.push(3),
-                Op::PushPopC => c.push(2),
-                Op::WatcherE => c.push(5),
-                Op::Probe | Op::LogQ => {}
-            }
-        }
-    }
+    let mut c = Vec::new();
+    go(&progs, &mut vec![0; progs.len()], &mut vec![INITIAL; progs.len()], INITIAL, &mut c);
     c.sort_unstable();
     c.dedup();
     c
